@@ -13,10 +13,10 @@
                              text up to the start of the last word is kept byte for byte
      C17_byte_prefix_refuted the pinned tree sliced bytes with the lexer's rune index:
                              witness "éé b" (repaired; see known_findings.json)
-   Not proved (decided by the harness with the real lexer on every candidate): re-reading a
-   candidate yields the earlier words followed by the value (C17_relex); known finding: the
-   lexer's `adjoins` mixes rune index and byte length, so after a non-ASCII character two
-   words separated by blanks can be merged (dependency). *)
+   Re-reading a candidate (C17_word_roundtrip ... C17_splitp_line_relex, below): proved for lines of words
+   quoted in one style each; outside that fragment it is decided by the harness with the real lexer on
+   every candidate.  Known finding: the lexer's `adjoins` mixes rune index and byte length, so after a
+   non-ASCII character two words separated by blanks can be merged (dependency; C17_adjoins_nonascii_refuted). *)
 From CV Require Import Base.Str Base.Utf8 Model.Common Model.Action Model.Shlex Model.Split Proofs.Split.
 
 Theorem C17_context : forall rp pl wb files a c,
